@@ -18,6 +18,9 @@ var registry = map[string]propertyFunc{}
 // needsL4 lists properties whose rules use the whole-program call graph (bounded concurrency).
 var needsL4 = map[string]bool{}
 
+// verifDir is the /verif directory (location of known_findings.json, the canary module, evidence).
+var verifDir string
+
 func main() {
 	prop := flag.String("property", "", "property id (C01…C20)")
 	tier := flag.String("tier", os.Getenv("VERIF_TIER"), "quick|thorough")
@@ -63,6 +66,7 @@ func main() {
 		fmt.Printf("VIOLATION property=%s replay=%s\n", *prop, "(repository does not load: "+oneLine(err.Error())+")")
 		os.Exit(1)
 	}
+	verifDir = *verif
 	r := NewReport(*prop, *tier, e)
 	f(e, r)
 	code := r.Finish(*verif, *out, seed)
